@@ -591,6 +591,16 @@ def safe_value(v):
 def project(b, v, r=None):
   """v restricted to the fields the base b and the extended spec r share (declared by the same key spec in both schemas)."""
   t = T()
+  if isinstance(b, t.Union) or isinstance(r, t.Union):
+    # through a Union: the candidate of the extended spec that yields the value and the base candidate of its class
+    def flat(u):
+      out = []
+      for c in (u.candidates if isinstance(u, t.Union) else [u]): out += flat(c) if isinstance(c, t.Union) else [c]
+      return out
+    rc = next((c for c in flat(r) if val_py(c, v)), None) if r is not None else None
+    bc = next((c for c in flat(b) if rc is not None and type(c) is type(rc)), None)
+    if rc is None or bc is None: return v
+    return project(bc, v, rc)
   if isinstance(b, t.Dict) and isinstance(v, dict) and b.schema is not None:
     rs = r.schema if isinstance(r, t.Dict) else None
     out = {}
@@ -986,6 +996,13 @@ def oracle_case(case, hit):
     if r is not None:
       vals = ([case['value']] if 'value' in case else []) + values_for(case['c'], _R(), 30) + values_for(case['b'], _R(), 30)
       check_extend(c0, b, r, vals, hit, dict(op=op, c=case['c'], b=case['b']))
+  elif op == 'sequence':
+    child, base = build(case['c']), build(case['b'])
+    vals = values_for(case['c'], _R(), 30) + values_for(case['b'], _R(), 30) + ([case['value']] if 'value' in case else [])
+    for vt in vals[:4]: impl_apply(child, vt, False)
+    out, r = impl_extend(child, base)
+    if r is not None:
+      check_extend(build(case['c']), base, r, vals, hit, dict(op=op, steps=case.get('steps'), c=case['c'], b=case['b']))
   elif op == 'apply':
     s = build(case['spec'])
     before = copy.deepcopy(s)
@@ -1012,6 +1029,145 @@ def probe_quirks(ctx):
     for sig, what, case in got:
       ctx.hit(sig, what, case)
   return flags
+
+
+# ------------------------------------------------------------------------------------------------
+# systematic bound sweeps (every child bound x every base bound, 0 as often as any other value) and
+# operation sequences on the same spec objects (apply-before-extend, extend-then-apply, ...)
+
+SIZE_MIN = [0, 1, 2, 5]              # min_size None is 0
+SIZE_MAX = [None, 0, 1, 2, 5]
+NUM_BOUNDS = [None, -2, -1, 0, 1, 2, 5]
+
+def _m0(n=0): return [n, [], 0]
+def size_specs():
+  return [(mn, mx) for mn in SIZE_MIN for mx in SIZE_MAX if mx is None or mx >= mn]
+
+def _seq_tree(kind_, mn, mx, elem):
+  """List / variable (or fixed when min == max) Tuple tree with the given bounds."""
+  if kind_ == 'list': return [5, elem, mn, _opt(mx), _m0()]
+  if mx is not None and mx == mn: return [6, [copy.deepcopy(elem) for _ in range(mn)], mn, [mn], _m0()]
+  return [6, [elem], mn, _opt(mx), _m0()]
+
+def _seq_value(kind_, k, x=None):
+  x = x if x is not None else V(1)
+  return [6 if kind_ == 'list' else 7, [x] * k]
+
+def bound_wrappers():
+  """(name, make(mn, mx) -> tree, values(k) -> value tree of inner length k)"""
+  INT = [1, [], [], _m0()]
+  return [
+      ('List', lambda mn, mx: _seq_tree('list', mn, mx, INT), lambda k: _seq_value('list', k)),
+      ('Dict.field:List', lambda mn, mx: [7, [[[[0, S('a')], _seq_tree('list', mn, mx, INT)]]], _m0()],
+       lambda k: [8, [[S('a'), _seq_value('list', k)]]]),
+      ('List(List)', lambda mn, mx: [5, _seq_tree('list', mn, mx, INT), 0, [], _m0()],
+       lambda k: [6, [_seq_value('list', k), _seq_value('list', k)]]),
+      ('Tuple', lambda mn, mx: _seq_tree('tuple', mn, mx, INT), lambda k: _seq_value('tuple', k)),
+      ('List(Tuple)', lambda mn, mx: [5, _seq_tree('tuple', mn, mx, INT), 0, [], _m0()],
+       lambda k: [6, [_seq_value('tuple', k)]]),
+  ]
+
+def with_first_default(t, vals):
+  """t with the first of vals it accepts as default (so the object has been applied once when constructed)."""
+  for v in vals:
+    t2 = copy.deepcopy(t); t2[-1] = [t2[-1][0], [v], 0]
+    c = canon(t2)
+    if c is not None: return c
+  return None
+
+def bound_sweep_pairs(rng, thorough):
+  """-> list of (label, child tree, base tree, candidate values)"""
+  out = []
+  specs = size_specs()
+  for name, make, val in bound_wrappers():
+    vals = [val(k) for k in range(7)]
+    trees = {}
+    for mn, mx in specs:
+      c = canon(make(mn, mx))
+      if c is not None: trees[(mn, mx)] = c
+    for cb, ct in trees.items():
+      for bb, bt in trees.items():
+        out.append(('%s child=%s base=%s' % (name, cb, bb), ct, bt, vals))
+        # the child constructed with a default: it has been applied before it extends
+        if thorough or rng.random() < 0.5:
+          cd = with_first_default(ct, vals)
+          if cd is not None: out.append(('%s child=%s+default base=%s' % (name, cb, bb), cd, bt, vals))
+  # numeric ranges incl. 0 and negative bounds
+  for k, unit in ((1, 1), (2, 64)):
+    rs = [(lo, hi) for lo in NUM_BOUNDS for hi in NUM_BOUNDS if lo is None or hi is None or lo <= hi]
+    trees = {}
+    for lo, hi in rs:
+      c = canon([k, _opt(None if lo is None else lo * unit), _opt(None if hi is None else hi * unit), _m0()])
+      if c is not None: trees[(lo, hi)] = c
+    nums = [-3, -2, -1, 0, 1, 2, 3, 5, 6]
+    vals = [V(x) for x in nums] + [V(float(x)) for x in nums] + [V(True), V(False), V(0.5), V(-0.5)]
+    for cb, ct in trees.items():
+      for bb, bt in trees.items():
+        if not thorough and k == 2 and rng.random() < 0.5: continue
+        out.append(('%s child=%s base=%s' % (KIND[k], cb, bb), ct, bt, vals))
+        if cb[0] != cb[1] and (thorough or rng.random() < 0.25):
+          cd = with_first_default(ct, vals)
+          if cd is not None: out.append(('%s child=%s+default base=%s' % (KIND[k], cb, bb), cd, bt, vals))
+  return out
+
+def observables(s):
+  """Everything a caller can read off a spec object besides apply: the printed form and the size/bound properties."""
+  t = T()
+  o = [s.format(compact=True), bool(s.is_noneable), bool(s.frozen)]
+  if isinstance(s, t.List): o += [s.min_size, s.max_size, s.element.key.min_value, s.element.key.max_value]
+  if isinstance(s, t.Tuple): o += [s.min_size, s.max_size, s.fixed_length, len(s.elements), len(s)]
+  if isinstance(s, (t.Int, t.Float)): o += [s.min_value, s.max_value]
+  return o
+
+def state_check(ctx, obj, cur, after, label):
+  """The long-lived object must be indistinguishable from a fresh object built from the state the model predicts."""
+  try:
+    fresh = build(cur)
+    a, b = observables(obj), observables(fresh)
+    r = safe_render(obj)
+  except Exception as e:
+    return
+  if a != b or r != cur:
+    ctx.hist('spec_state', 'differs after ' + after)
+    if not any(x.get('name') == 'spec object state vs model state' for x in ctx.broken):
+      ctx.broken.append(dict(kind='correspondence', name='spec object state vs model state', count=1,
+                             detail=dict(case=label, after=after, object=a, expected=b, rendered=trlib.to_line(r) if isinstance(r, list) else r,
+                                         model_state=trlib.to_line(cur))))
+      ctx.log('STATE %s: after %s the spec object reads %s, a fresh object in the model\'s state reads %s' % (label, after, a, b))
+
+def run_sequence(ctx, label, ct, bt, vals, flags, add_case, hit, rng):
+  """apply-before-extend, is_compatible before/after, extend, apply-after, extend again - all on the same objects;
+  every step is also a model case on the state the model predicts."""
+  child, base = build(ct), build(bt)
+  cur = ct
+  n = 0
+  def d(op, **kw): return dict(kw, op=op, sequence=label)
+  pre = vals if len(vals) <= 7 else rng.sample(vals, 7)
+  for vt in pre[:4]:                                   # apply before extend
+    out, o, ok = impl_apply(child, vt, False)
+    add_case([flags, 0, 0, cur, vt], out, d('apply', spec=cur, value=vt, partial=0), 'seq-apply'); n += 1
+  state_check(ctx, child, cur, 'apply', label)
+  add_case([flags, 1, cur, bt], impl_compat(child, base), d('compat', a=cur, b=bt), 'seq-compat')
+  add_case([flags, 1, bt, cur], impl_compat(base, child), d('compat', a=bt, b=cur), 'seq-compat')
+  out, r = impl_extend(child, base)                    # extend the object that has been applied
+  add_case([flags, 2, cur, bt], out, d('extend', c=cur, b=bt), 'seq-extend'); n += 3
+  if r is None or out[1] == [99]:
+    return n                                           # a refused extension may leave the child half-updated: stop here
+  cur = out[1]
+  state_check(ctx, r, cur, 'extend', label)
+  for vt in vals:                                      # apply after extend, on the same object
+    o2, o, ok = impl_apply(r, vt, False)
+    add_case([flags, 0, 0, cur, vt], o2, d('apply', spec=cur, value=vt, partial=0), 'seq-apply'); n += 1
+  check_extend(build(ct), base, r, vals, hit, dict(op='sequence', steps='apply,extend,apply', c=ct, b=bt))
+  state_check(ctx, r, cur, 'apply after extend', label)
+  add_case([flags, 1, bt, cur], impl_compat(base, r), d('compat', a=bt, b=cur), 'seq-compat')
+  add_case([flags, 1, cur, bt], impl_compat(r, base), d('compat', a=cur, b=bt), 'seq-compat')
+  out2, r2 = impl_extend(r, base)                      # extending again by the same base
+  add_case([flags, 2, cur, bt], out2, d('extend', c=cur, b=bt), 'seq-extend'); n += 3
+  if r2 is not None and out2[1] != [99]:
+    state_check(ctx, r2, out2[1], 'second extend', label)
+  state_check(ctx, base, bt, 'being extended / compared (base)', label)
+  return n
 
 # ------------------------------------------------------------------------------------------------
 def nontrivial_spec(t):
@@ -1084,22 +1240,30 @@ def run(ctx):
       a = rng.choice(fl2); same = [f for f in fl2 if f[0] == a[0]]
       sweep.append((a, rng.choice(same)))
   noracle = 0
-  for (at, bt), src in [(p, 'random') for p in pairs] + [(p, 'flat') for p in sweep]:
+  bsweep = bound_sweep_pairs(rng, ctx.thorough)
+  ctx.extra['bound_sweep'] = dict(pairs=len(bsweep), what='every child bound x every base bound: sizes min in {0,1,2,5} x max in {None,0,1,2,5} for '
+                                  'List, List in a Dict field, List of List, Tuple, List of Tuple (values of every length 0..6); Int/Float ranges with bounds in '
+                                  '{None,-2,-1,0,1,2,5}; children with and without a default', exhaustive_on_grid=bool(ctx.thorough))
+  extra_vals = {}
+  for label, ct, bt, vs_ in bsweep:
+    extra_vals[(trlib.to_line(ct), trlib.to_line(bt))] = vs_
+    ctx.hist('bound_sweep', label.split(' ')[0])
+  for (at, bt), src in [(p, 'random') for p in pairs] + [(p, 'flat') for p in sweep] + [((ct, bt), 'bounds') for _, ct, bt, _ in bsweep]:
     a, b = build(at), build(bt)
     hyp_specs.append(at); hyp_specs.append(bt)
-    vals = None
-    for (xt, yt, x, y) in ((at, bt, a, b), (bt, at, b, a)) if src == 'random' or not ctx.thorough else ((at, bt, a, b),):
+    vals = extra_vals.get((trlib.to_line(at), trlib.to_line(bt))) if src == 'bounds' else None
+    for (xt, yt, x, y) in ((at, bt, a, b), (bt, at, b, a)) if src == 'random' or (src == 'flat' and not ctx.thorough) else ((at, bt, a, b),):
       out = impl_compat(x, y)
       d = dict(op='compat', a=xt, b=yt, a_text=show(xt), b_text=show(yt))
       add_case([flags, 1, xt, yt], out, d, 'compat')
-      ctx.hist('compat', '%s<-%s %s' % (kind(xt), kind(yt), bool(out[0])) if src == 'random' else 'flat %s' % bool(out[0]))
+      ctx.hist('compat', '%s<-%s %s' % (kind(xt), kind(yt), bool(out[0])) if src == 'random' else '%s %s' % (src, bool(out[0])))
       if out[0]:
         if vals is None: vals = values_for(at, rng, 30) + values_for(bt, rng, 30)
         noracle += check_compat(x, y, vals, hit, dict(op='compat', a=xt, b=yt))
       out, r = impl_extend(build(xt), build(yt))
       d = dict(op='extend', c=xt, b=yt, c_text=show(xt), b_text=show(yt))
       add_case([flags, 2, xt, yt], out, d, 'extend')
-      ctx.hist('extend', ('%s.extend(%s) ' % (kind(xt), kind(yt)) if src == 'random' else 'flat ') + ('ok' if r is not None else {1: 'TypeError', 2: 'ValueError', 3: 'KeyError'}.get(out[1], 'other')))
+      ctx.hist('extend', ('%s.extend(%s) ' % (kind(xt), kind(yt)) if src == 'random' else src + ' ') + ('ok' if r is not None else {1: 'TypeError', 2: 'ValueError', 3: 'KeyError'}.get(out[1], 'other')))
       if r is not None:
         if out[1] != [99]: hyp_specs.append(out[1])
         if vals is None: vals = values_for(at, rng, 30) + values_for(bt, rng, 30)
@@ -1107,6 +1271,18 @@ def run(ctx):
         if out[1] != [99] and out[1] != xt:
           rv = vals + values_for(out[1], rng, 20)
         noracle += check_extend(build(xt), build(yt), r, rv, hit, dict(op='extend', c=xt, b=yt))
+  # ---- operation sequences on the same spec objects ------------------------------------------------------
+  nseq = nsteps = 0
+  seq_src = [(l, c, b, v) for l, c, b, v in bsweep]
+  for at, bt in pairs[:ctx.scale(500, 3000)]:
+    seq_src.append(('random', at, bt, values_for(at, rng, 10) + values_for(bt, rng, 10)))
+    seq_src.append(('random', bt, at, values_for(at, rng, 10) + values_for(bt, rng, 10)))
+  for label, ct, bt, vs_ in seq_src:
+    nsteps += run_sequence(ctx, label, ct, bt, vs_, flags, add_case, hit, rng)
+    nseq += 1
+  ctx.extra['op_sequences'] = dict(sequences=nseq, steps=nsteps,
+                                   what='on the same objects: apply x4, is_compatible both ways, extend, observables vs a fresh object in the model state, '
+                                        'apply on the result, containment oracle on the long-lived result, is_compatible again, extend again')
   ctx.extra['oracle_value_checks'] = noracle
   ctx.hist('literal_input_reading', 'compat: sender converts/completes an input the receiver refuses (not a failure)', LITERAL['compat'])
   ctx.hist('literal_input_reading', 'extend: extension converts/completes an input the base refuses (not a failure)', LITERAL['extend'])
